@@ -27,6 +27,34 @@ def cases(rng, tier):
         pairs = rng.sample(pairs, 700)
     for a, b in pairs:
         yield Case(program=render(bi('ㄴ', a.expr, b.expr)), tag='edge-pair', monitor='c06_expect', data=pybool(VL.spec_eq(a, b)))
+    # (1b) numeric neighbourhoods: around each base the integer, the nearest floats and slightly-off fractions,
+    # each as Integer / Float / Complex with zero and with tiny imaginary part — equality is exact, never
+    # "close enough", and int / float / complex spellings of one number are one key
+    import math
+    bases = [1, 2, 1234567890, 2 ** 31, 10 ** 10, 2 ** 40, 2 ** 52, -(2 ** 31), 3] if tier == 'quick' else \
+            [1, 2, 3, 10, 1000, 1234567890, 2 ** 31, 10 ** 10, 2 ** 40, 2 ** 52, 2 ** 53, -(2 ** 31), -(2 ** 40), 10 ** 15]
+    for base in bases:
+        fl = [float(base), float(base) + 0.25, math.nextafter(float(base), math.inf), math.nextafter(float(base), -math.inf),
+              float(base) + 5e-10 * abs(base)]
+        fl = list(dict.fromkeys(fl))
+        hood = [VL.vint(base), VL.vint(base + 1)] + [VL.vfloat(x) for x in fl] + [VL.vcomplex(x, 0.0) for x in fl] + \
+               [VL.vcomplex(float(base), 5e-324), VL.vcomplex(float(base), 1e-12)]
+        prs = list(itertools.product(hood, hood))
+        if tier == 'quick':
+            prs = rng.sample(prs, 60)
+        for a, b in prs:
+            yield Case(program=render(bi('ㄴ', a.expr, b.expr)), tag='near-pair', monitor='c06_expect', data=pybool(VL.spec_eq(a, b)))
+        # the same neighbourhood as dictionary keys: one entry per distinct number, lookup by any equal spelling
+        for _ in range(4 if tier == 'quick' else 30):
+            ks = rng.sample(hood, 4)
+            d = VL.vdict([(k, VL.vint(100 + i)) for i, k in enumerate(ks)])
+            probe = rng.choice(hood)
+            hit = [v for k, v in VL.dict_entries(d) if VL.spec_eq(k, probe)]
+            if hit:
+                yield Case(program=render(call(d.expr, probe.expr)), tag='near-dict', monitor='c06_expect', data=VL.spec_format(hit[0]))
+            else:
+                yield Case(program=render(bi('ㅅㄷ', call(d.expr, probe.expr), fundef(call(arg(0), lit(1))))), tag='near-dict-miss',
+                           monitor='c06_expect', data='-60')
     # (2) random nested values: pairs, with derived equal-but-differently-built copies
     for _ in range(n):
         a = VL.rand_value(rng)
@@ -125,7 +153,7 @@ SPEC = {
     'lean': ['C06'],
     'cases': cases,
     'stream': 'C06 equality / dictionary stream',
-    'rule': 'ㄴ on value pairs / triples: all pairs from a 60-value adversarial pool (integers colliding under the host hash: '
+    'rule': 'ㄴ on value pairs / triples: numeric neighbourhoods (base, base+1, base+0.25, next floats up / down, base·(1+5e-10), each as Integer / Float / Complex with zero and tiny imaginary part, also as dictionary keys); all pairs from a 60-value adversarial pool (integers colliding under the host hash: '
             '−1/−2, n ± k(2^61−1), dyadic fractions vs powers of two, ints at 2^53±1 vs floats, equal int/float/complex) '
             '(sampled in quick) and random values of the twelve kinds nested ≤ 3 with mutated and equal-but-rebuilt partners; '
             'expected answer from an independent structural/numeric oracle (exact rationals); reflexivity, symmetry, n-ary; '
